@@ -178,6 +178,45 @@ def run(ctx):
             ctx.violation("collation: implementation and model disagree on success", info, {"impl": res[1] if res[0] != "ok" else "ok", "model_ok": mo["ok"]}, False, size=len(batch))
         elif res[0] == "ok" and unbits(mo["result"]) != res[1]:
             ctx.violation("collation: result differs from the model's", info, {"impl": str(res[1])[:300], "model": str(unbits(mo["result"]))[:300]}, False, size=len(batch))
+    run_padvalues(ctx)
+
+
+def run_padvalues(ctx):
+    """`collate_tensors(batch, pad_value=v)` with non-default pad values, masked and plain tensors"""
+    from pose_format.torch.masked.collator import collate_tensors
+    rng = ctx.rng
+    cases = []
+    for _ in range(ctx.pick(80, 800)):
+        bs = rng.randint(1, 4)
+        lens = [rng.choice([0, 1, 2, 3]) for _ in range(bs)]
+        trail = rng.choice([(), (2,)])
+        masked = rng.random() < 0.6
+        pad = rng.choice([-1.0, 255.0, 7.5, 0.0])
+        cases.append(([gen_tensor(rng, l, trail, masked) for l in lens], lens, pad))
+    outs = ctx.driver.run([{"op": "collate", "batch": [model_json(d) for d in batch], "pad": mtexec.f64_bits(pad)} for batch, _, pad in cases])
+    for (batch, lens, pad), mo in zip(cases, outs):
+        info = {"batch": batch, "lengths": lens, "pad_value": pad, "entry": "collate_tensors"}
+        ctx.evaluated(json.dumps([batch, pad]), nontrivial=len(set(lens)) >= 2); ctx.count("pad_value:%s" % pad)
+        try:
+            res = ("ok", canon(collate_tensors([to_impl(d) for d in batch], pad_value=pad)))
+        except Exception as e:
+            res = ("error", type(e).__name__ + ": " + str(e)[:100])
+        if res[0] != "ok":
+            ctx.violation("collating a valid batch raises", info, {"error": res[1]}, True, size=len(batch), signature={"clause": "raises"}); continue
+        key = "masked" if "masked" in batch[0] else "plain"
+        r = res[1].get(key)
+        trail = batch[0][key]["shape"][1:]
+        inner = int(np.prod(trail)) if trail else 1
+        row = max(lens) * inner
+        if r is not None:
+            for e, ex in enumerate(batch):
+                seg = r["data"][e * row:(e + 1) * row]
+                if seg[:lens[e] * inner] != ex[key]["data"] or any(v != pad for v in seg[lens[e] * inner:]):
+                    ctx.violation("an example's values are altered, or padding is not the pad value", info, {"example": e, "row": seg}, True, size=len(batch), signature={"clause": "values"}); break
+                if key == "masked" and (r["mask"][e * row:(e + 1) * row][:lens[e] * inner] != ex[key]["mask"] or any(r["mask"][e * row:(e + 1) * row][lens[e] * inner:])):
+                    ctx.violation("validity is altered, or a padded position is marked valid", info, {"example": e}, True, size=len(batch), signature={"clause": "mask"}); break
+        if not mo["ok"] or unbits(mo["result"]) != res[1]:
+            ctx.violation("collation with a pad value: result differs from the model's", info, {"impl": str(res[1])[:300], "model": str(unbits(mo["result"]) if mo["ok"] else None)[:300]}, False, size=len(batch))
 
 
 def replay(ctx, rep):
